@@ -93,6 +93,12 @@ def make_cases(tier, seed, n_random=None):
             gt = type(g)(g.S, frozenset(tup.values()), [(w, h, tuple(tup.get(y, y) for y in b)) for w, h, b in g.rules])
             cases.append(dict(kind="string", name=name + "#tup", g=gt, L=2 if quick else 3, srs=srs, rename=rename))
             cases.append(dict(kind="trunc", name=name + "#tup", g=gt, ns=[0, 1, 2], L=L, srs=srs, rename=rename))
+        if corpus and i % 3 == 2:
+            # multi-character string tokens ('a', 'aa', 'aaa'): the length bound counts SYMBOLS, not characters
+            cat = {a: "a" * (k + 1) for k, a in enumerate(sorted(g.V))}
+            gc = type(g)(g.S, frozenset(cat.values()), [(w, h, tuple(cat.get(y, y) for y in b)) for w, h, b in g.rules])
+            cases.append(dict(kind="string", name=name + "#cat", g=gc, L=2 if quick else 3, srs=srs, rename=rename))
+            cases.append(dict(kind="trunc", name=name + "#cat", g=gc, ns=[0, 1, 2], L=L, srs=srs, rename=rename))
     return cases
 
 
